@@ -326,7 +326,7 @@ func (h *ResponseHeader) addVaryBytes(value []byte) {
 	if len(v) == 0 {
 		// 'Vary' is not set
 		h.SetBytesV(HeaderVary, value)
-	} else if !bytes.Contains(v, value) {
+	} else if !hasHeaderValue(v, value) {
 		// 'Vary' is set and not contains target value
 		h.SetBytesV(HeaderVary, append(append(v, ','), value...))
 	} // else: 'Vary' is set and contains target value
